@@ -23,6 +23,7 @@ sys.path.insert(0, os.path.join(vlib.VERIF, "translators"))
 sys.path.insert(0, os.path.dirname(os.path.abspath(__file__)))
 import values as values_tr  # noqa: E402
 import c10_corpus as C  # noqa: E402
+import c10_arms as ARMS  # noqa: E402
 
 LEVELNUM = {"ERROR": 1, "WARN": 2, "INFO": 3, "DEBUG": 4, "TRACE": 5}
 METHCODE = {"u64": 0, "i64": 1, "u128": 2, "i128": 3, "f64": 4, "bool": 5, "str": 6, "bytes": 7, "error": 8, "debug": 9}
@@ -752,6 +753,17 @@ def run(ctx):
         rep.count("arms:fieldset", len(arms_of(text, "gen_fieldset_arms")))
     except ValueError as ex:
         rep.tie("corpus-reaches-every-valueset!/fieldset!-arm", False, "cannot read the generated arm tables: %s" % ex)
+    # ... and every arm of event!, span! and the ten level shorthands must be the ENTRY arm of some template, per (macro, prefix
+    # group, arm): the forwarding arms are only shape-checked by the translator, what they do is seen only through the corpus
+    try:
+        miss, probs, st = ARMS.coverage(ctx.repo, tpls)
+        rep.tie("corpus-enters-through-every-arm-of-the-12-span/event-macros", not miss and not probs,
+                "%d live arms not entered, %d problems (of %d arms, %d dead)" % (len(miss), len(probs), st["arms"], st["dead"]),
+                [list(m) for m in miss[:3]] + probs[:3] or None)
+        rep.count("macro-arms:live", st["live"])
+        rep.count("macro-arms:dead", st["dead"])
+    except Exception as ex:
+        rep.tie("corpus-enters-through-every-arm-of-the-12-span/event-macros", False, "arm reader failed: %s" % str(ex)[:200])
     # ---- leg A
     rep.proof = coq_prove(ctx, "C10", ["theories/Properties/C10.vo", "theories/Fields/Encode.vo"])
     # ---- implementation
@@ -783,8 +795,12 @@ def run(ctx):
         ok, paths, log = cargo_build(ctx, pkg, [binname], release=rel)
         tag = binname + ("-release" if rel else "")
         if not ok:
+            # maybe only the forms whose compilability hinges on one arm group (gen/gfragile.rs) broke: say so, go on without them
             rep.tie("build:" + tag, False, vlib.last_error(log))
-            return False
+            ok, paths, log2 = cargo_build(ctx, pkg, [binname], release=rel, features=["no_fragile"])
+            if not ok:
+                return False
+            ctx.log("%s: built without gen/gfragile.rs" % tag)
         # regression corpus first (debug builds; an entry says which of the three binaries it is for)
         if not rel:
             for e, t in load_regressions(tpls):
@@ -819,7 +835,7 @@ def run(ctx):
     # ---- oracle over every observation
     case = None
     model_cases = {}      # key -> (template, impl record, refs)
-    n_model_target = 7000 if ctx.thorough() else 3200
+    n_model_target = 9500 if ctx.thorough() else 5200
     n_static_target = n_model_target // 5
     n_log_target = n_model_target // 4
     n_static = 0
